@@ -173,6 +173,18 @@ def run(ctx):
             for n_ in ast.walk(mapf.node)),
         "value text = data[i]": "text = value_format(data[i])" in tm,
     }
+    facts["colour = cmap(norm(value)) of the values drawn"] = "(norm, cmap_data) = _get_cmap_data(data, kwargs)" in tm.replace("norm, cmap_data =", "(norm, cmap_data) =") \
+        and "colors = cmap(cmap_data)" in tm
+    gcd = mp.functions.get("_get_cmap_data")
+    ctx.saw(gcd)
+    dpar = gcd.params()[0]
+    norms = [c for c in calls_in(gcd.node) if U(c.func) in ("colors.Normalize", "colors.LogNorm", "Normalize", "LogNorm")]
+    ok_norm = len(norms) >= 2 and all([U(a) for a in c.args[:2]] == ["cmap_min", "cmap_max"] for c in norms)
+    rets = [U(n.value) for n in ast.walk(gcd.node) if isinstance(n, ast.Return)]
+    defs_max = {U(n.value) for n in ast.walk(gcd.node) if isinstance(n, ast.Assign) and U(n.targets[0]) == "cmap_max"}
+    ctx.check(ok_norm and rets == [f"(norm, norm({dpar}))"] and defs_max == {f"kwargs.pop('cmap_max', {dpar}.max())"}, "C20.b",
+              "matplotlib._get_cmap_data", "a matplotlib normaliser over (cmap_min, cmap_max = data.max() by default) applied to the data itself - "
+              "monotone in the value", f"normalisers: {[U(c)[:50] for c in norms]}; returns {rets}; cmap_max from {sorted(defs_max)}", gcd.where)
     guards = [n.test for n in ast.walk(mapf.node) if isinstance(n, ast.If) and "show_zero" in U(n.test)]
     okg = any(isinstance(g, ast.BoolOp) and isinstance(g.op, ast.Or) and any(isinstance(v, ast.Compare) and U(v.left) == "data[i]" and isinstance(v.ops[0], ast.NotEq)
                                                                               and const_value(v.comparators[0]) == 0 for v in g.values) for g in guards)
@@ -256,6 +268,25 @@ def run(ctx):
     okb = any(end_kind(p) == "raise" and ("backend", False) in [(U(s[1]), s[2]) for s in p if s[0] == "cond"] for p in function_paths(gb.node))
     ctx.check(okb, "C20.c", "_get_backend:unknown", "unknown backend -> RuntimeError", "an unknown backend is no longer refused", gb.where)
 
+    # dispatch: the method looked up is the one named `kind`, called with the caller's histogram and keyword arguments
+    tpf = U(pf.node)
+    hpar = pf.params()[0]
+    ctx.check("method = getattr(backend_impl, kind)" in tpf and f"return method({hpar}, **kwargs)" in tpf
+              and f"if {hpar}.ndim in backend_impl.dims[t]" in tpf and "kind = kinds[0]" in tpf, "C20.c", "plot:dispatch",
+              "getattr(backend, kind)(histogram, **kwargs); the default kind is the first one registered for the histogram's dimension",
+              "plot() no longer dispatches to the backend function named `kind` with the histogram and kwargs", pf.where)
+    PP = m.cls("PlottingProxy")
+    pc, pg = PP.methods.get("__call__"), PP.methods.get("__getattr__")
+    ctx.saw(pc)
+    ctx.saw(pg)
+    okpp = "return plot(self.histogram, kind=kind, **kwargs)" in U(pc.node) and \
+        f"return plot(self.histogram, {[q for q in pg.params() if q != 'self'][0]}, **kwargs)" in U(pg.node)
+    ctx.check(okpp, "C20.c", "PlottingProxy:forwards", "h.plot(kind, ...) and h.plot.<kind>(...) are plot(h, kind, ...)",
+              "the plotting proxy no longer forwards its own histogram, the kind and the keyword arguments to plot()", pc.where)
+    plt_ = m.cls("HistogramBase").getters.get("plot")
+    ctx.check(plt_ is not None and "PlottingProxy(self)" in U(plt_.node), "C20.c", "HistogramBase.plot", "the proxy wraps the histogram itself",
+              "HistogramBase.plot does not return PlottingProxy(self)", plt_.where if plt_ else "")
+
     # ---- C20.d labels ------------------------------------------------------------------------------------------------------------------
     ctx.rule("C20.d", "bar / scatter / line / fill / step / map / image / bar3d call _add_labels; defaults are the histogram's title and axis names", 9)
     for kind in ("bar", "scatter", "line", "fill", "step", "map", "image", "bar3d"):
@@ -315,3 +346,36 @@ def run(ctx):
                   "; ".join(sorted(set(bad))[:2]) + " - a tick handler sees the default range of a fresh axes, not the histogram's", fi.where)
     ctx.check(n_fun >= 5, "C20.e", "limits-before-ticks:functions", f"{n_fun} plot functions use both helpers",
               f"only {n_fun} plot functions call both a limit setter and a limit reader (anchor moved?)", mp.relpath)
+
+    # one label per tick: the labels are an unfiltered element-wise image of the very tick list that is returned
+    cl = TT.methods.get("__call__")
+    ft = TT.methods.get("format_time_ticks")
+    ctx.saw(cl)
+    ctx.saw(ft)
+    tc = U(cl.node)
+    hp_, mn_, mx_ = [p for p in cl.params() if p != "self"][:3]
+    okc = f"ticks = self.get_time_ticks({hp_}, level, {mn_}, {mx_})" in tc and "tick_labels = self.format_time_ticks(ticks, level=level)" in tc \
+        and "return (ticks, tick_labels)" in tc and f"level = self.level or self.deduce_level({mn_}, {mx_})" in tc
+    ctx.check(okc, "C20.e", "TimeTickHandler.__call__", "ticks for (min, max) at the chosen / deduced level; labels formatted from exactly those ticks",
+              "__call__ no longer formats the labels from the tick list it returns (or swaps the range ends)", cl.where)
+    tp_ = [p for p in ft.params() if p != "self"][0]
+    per_tick = {tp_}
+    changed = True
+    assigns = [n for n in ast.walk(ft.node) if isinstance(n, ast.Assign) and isinstance(n.targets[0], ast.Name)]
+    def _elementwise(v):
+        return isinstance(v, ast.ListComp) and len(v.generators) == 1 and not v.generators[0].ifs and U(v.generators[0].iter) in per_tick
+    bad_defs = []
+    while changed:
+        changed = False
+        for a in assigns:
+            if a.targets[0].id not in per_tick and _elementwise(a.value):
+                per_tick.add(a.targets[0].id)
+                changed = True
+    for a in assigns:
+        if a.targets[0].id in per_tick and a.targets[0].id != tp_ and not _elementwise(a.value):
+            bad_defs.append(U(a)[:70])
+    rets = [n.value for n in ast.walk(ft.node) if isinstance(n, ast.Return)]
+    bad_rets = [U(r)[:70] for r in rets if not _elementwise(r)]
+    ctx.check(len(rets) >= 2 and not bad_rets and not bad_defs, "C20.e", "TimeTickHandler.format_time_ticks:one-label-per-tick",
+              f"{len(rets)} return(s), each an unfiltered comprehension over a per-tick list {sorted(per_tick)}",
+              f"labels are not an element-wise image of the ticks: {(bad_rets + bad_defs)[:2]}", ft.where)
